@@ -35,6 +35,7 @@ type c11Read struct {
 	Desc     string `json:"desc"`
 	Reuse    bool   `json:"decode_into_used_struct,omitempty"`
 	Span     bool   `json:"span_cache,omitempty"`
+	Stack    bool   `json:"also_from_a_stack_held_copy,omitempty"`
 }
 
 // a previous message with all fields set and a two-entry map (decoded first when Reuse is set)
@@ -219,6 +220,19 @@ func c11ReadOne(c *mc.Ctx, k c11Read, in []byte) {
 
 func c11ReadOneSpan(c *mc.Ctx, k c11Read, in []byte) {
 	c.Eval(1)
+	if k.Stack && !k.Span && !k.Reuse && len(in) <= 512 {
+		// the same bytes held in a local array on a goroutine stack (which moves when it grows) decode the same way
+		var diff string
+		if pi := mc.Try(func() { diff = fastReadOnStack(k.Kind, in) }); pi != nil {
+			diff = "panic: " + pi.Msg + " at " + pi.Frame
+		}
+		if diff != "" {
+			kk := k
+			kk.InputHex = hex.EncodeToString(in)
+			c.Violate("read", fmt.Sprintf("C11|%s|read|stack-held-input-differs", k.Kind), fmt.Sprintf("%s.FastRead on %s (%s): %s", k.Kind, mc.Hex(in), k.Desc, diff), kk)
+			return
+		}
+	}
 	inHex := hex.EncodeToString(in)
 	shown := mc.Hex(in)
 	bad := func(class, format string, a ...interface{}) {
@@ -394,6 +408,9 @@ func c11Run(c *mc.Ctx) {
 	for i := 0; i < 0x0201; i++ {
 		bigMap.L = append(bigMap.L, ref.Value{T: ref.I16, I: uint64(i)}, ref.Value{T: ref.BOOL, I: 1})
 	}
+	for _, d := range []int{12, 30, 60} { // deeply nested unknown values: the skipper recurses (and the goroutine stack grows)
+		unknowns = append(unknowns, gen.Chain("struct", d, ref.BYTE), gen.Chain("list", d, ref.STRING))
+	}
 	unknowns = append(unknowns, ref.Value{T: ref.STRING, S: c01Str(0x0102)}, ref.Value{T: ref.STRING, S: c01Str(0x010203)}, big, bigMap,
 		ref.Value{T: ref.SET, Elem: ref.STRING, L: []ref.Value{{T: ref.STRING, S: c01Str(0x0304)}, {T: ref.STRING, S: []byte{}}}})
 	type known struct {
@@ -462,9 +479,15 @@ func c11Run(c *mc.Ctx) {
 			run := func(ins map[int][]ref.Field, desc string) {
 				enc := build(ins)
 				c.Distinct(enc)
-				for _, tr := range trailers {
+				stack := false // inputs whose unknown field is a container make the skipper recurse: those also run from a stack-held copy
+				for _, fs := range ins {
+					for _, f := range fs {
+						stack = stack || ref.IsContainer(f.V.T)
+					}
+				}
+				for ti, tr := range trailers {
 					in := append(append([]byte{}, enc...), tr...)
-					c11ReadOne(c, c11Read{Kind: kd.kind, StructN: len(enc), Want: want, Desc: desc}, in)
+					c11ReadOne(c, c11Read{Kind: kd.kind, StructN: len(enc), Want: want, Desc: desc, Stack: stack && ti == 0 && len(sel) == len(kd.fields)}, in)
 				}
 				if len(sel) == len(kd.fields) && kd.kind != "exception" && ins == nil {
 					in := append([]byte{}, enc...)
